@@ -180,6 +180,7 @@ func sglCase(w *bufio.Writer, rng *u.Rng, client, tracer bool, dist map[string]i
 	}
 	r.v = conn.Deco.V
 	r.appHi = r.v.AppHighest()
+	r.retryGap = -1
 	r.hdr = fmt.Sprintf("%s %s 0 256 131072 %s", u.B(client), u.B(!client), u.Z(r.v.Rnd0))
 	var script []string
 	g := &sglRun{sphRun: r, conn: conn, pnsByLevel: map[int64][]int64{}, dist: dist}
